@@ -226,12 +226,80 @@ def rule_p4(repo, col):
                    function="problog_export._type_to_callmode")
 
 
+def rule_p5(repo, col):
+    """bit-order agreement between the call-mode encoder and the decoders of bound outputs"""
+    m = repo.module("problog.extern")
+    sites = []
+    parents = m.parents()
+    for node in ast.walk(m.tree):
+        if isinstance(node, ast.BinOp) and isinstance(node.op, ast.BitAnd) and isinstance(node.right, ast.BinOp) and isinstance(node.right.op, ast.LShift) \
+                and isinstance(node.right.left, ast.Constant) and node.right.left.value == 1:
+            shift = node.right.right
+            # loop index: nearest enclosing `for <i>, _ in enumerate(...)` / `for i in range(...)`
+            cur = node
+            idx = None
+            fn = None
+            while cur is not None:
+                cur = parents.get(cur)
+                if isinstance(cur, ast.For) and idx is None:
+                    t = cur.target
+                    if isinstance(t, ast.Tuple) and isinstance(t.elts[0], ast.Name) and isinstance(cur.iter, ast.Call) and dotted(cur.iter.func) == "enumerate":
+                        idx = t.elts[0].id
+                if isinstance(cur, (ast.FunctionDef,)) and fn is None:
+                    fn = cur
+            if idx is None or fn is None:
+                continue
+            # local aliases of len(self.output_arguments)
+            al = {}
+            import re as _re
+            for st in ast.walk(fn):
+                if isinstance(st, ast.Assign) and isinstance(st.targets[0], ast.Name):
+                    mm = _re.match(r"^len\(self\.(\w+)\)$", norm(st.value))
+                    if mm:
+                        al[st.targets[0].id] = "N_" + mm.group(1)
+            src = _re.sub(r"len\(self\.(\w+)\)", lambda mm: "N_" + mm.group(1), norm(shift))
+            toks = []
+            for tok in _re.split(r"(\W+)", src):
+                if tok == idx:
+                    toks.append("IDX")
+                elif tok in al:
+                    toks.append(al[tok])
+                else:
+                    toks.append(tok)
+            sites.append((node, "".join(toks), m.qualname_of(node)))
+    if len(sites) < 3:
+        raise AnalysisError("problog.extern: fewer than 3 bound-output bit tests found (%d)" % len(sites))
+    # group by class: each exporter class has one encoder; decoders in a class without its own encoder use the inherited one
+    def cls_of(fn):
+        return fn.split(".")[0]
+
+    encs = {cls_of(fn): srcn for node, srcn, fn in sites if fn.endswith("_extract_callmode")}
+    if not encs:
+        raise AnalysisError("_extract_callmode: bit test not found")
+    for node, srcn, fn in sites:
+        cname = cls_of(fn)
+        ref = encs.get(cname)
+        if ref is None:
+            c = m.classes.get(cname)
+            for b in (repo.mro(c) if c is not None else []):
+                if hasattr(b, "name") and b.name in encs:
+                    ref = encs[b.name]
+                    break
+        if ref is None:
+            raise AnalysisError("no call-mode encoder found for %s" % fn)
+        col.decide("P5", m, node, srcn == ref, "bound-output bit position is %s in encoder and decoder" % ref,
+                   "the call-mode encoder (_extract_callmode) puts output IDX at bit %s but this site reads bit %s: with two or more outputs and only some of them bound, "
+                   "the wrong output is unified with the caller's value" % (ref, srcn), function=fn)
+
+
 def run(repo, col):
     col.rule("P1", "constructor coverage py2pl <-> pl2py")
     col.rule("P2", "string codec removes exactly the delimiter pair that was added")
     col.rule("P3", "sequence spines end in a nullary terminator")
     col.rule("P4", "problog_export converter tables agree")
+    col.rule("P5", "call-mode encoder and output decoders agree on the bit order")
     rule_p1(repo, col)
     rule_p2(repo, col)
     rule_p3(repo, col)
     rule_p4(repo, col)
+    rule_p5(repo, col)
